@@ -63,9 +63,11 @@ EnvsThorough ==
 ExEnvs == IF ExEnvSel = "quick" THEN EnvsQuick ELSE EnvsThorough
 WrEnv == Env(0, <<0>>, 0, "sep", "eof", -1)
 
-Case(id, part, target, e, ops) ==
+\* arena = 1: the driver takes every WriteBinary / Write argument as the next sub-slice of ONE caller array (len < cap,
+\* the next argument right behind it: one payload sent in pieces); arena = 0: a fresh, tight buffer per call
+Case(id, part, target, e, ar, ops) ==
     [id |-> id, part |-> part, target |-> target, size |-> e.size, frag |-> e.frag, eofAt |-> e.eofAt,
-     eofMode |-> e.eofMode, endCls |-> e.endCls, tmoAt |-> e.tmoAt, ncp |-> 8, ops |-> ops]
+     eofMode |-> e.eofMode, endCls |-> e.endCls, tmoAt |-> e.tmoAt, ncp |-> 8, arena |-> ar, ops |-> ops]
 
 RdSeqs == SetToSeq(SeqsUpTo(RdOps(ExSizes), ExLenRd) \ {<< >>})
 \* Write (net.Conn.Write: flush + write through) exists on the connection only, not on network.NewWriter
@@ -74,10 +76,10 @@ NwSeqs == SetToSeq(SeqsUpTo(WrOps(ExSizes) \cup {Op("Malloc", 0)}, ExLenWr) \ {<
 EnvSeq == SetToSeq(ExEnvs)
 
 ExCases ==
-    LET nr == Len(RdSeqs)  ne == Len(EnvSeq)  nw == Len(WrSeqs)  nn == Len(NwSeqs) IN
-    [i \in 1 .. nr * ne |-> Case(i, "rd", "conn", EnvSeq[((i - 1) % ne) + 1], RdSeqs[((i - 1) \div ne) + 1])]
-    \o [i \in 1 .. nw |-> Case(nr * ne + i, "wr", "conn", WrEnv, WrSeqs[i])]
-    \o [i \in 1 .. nn |-> Case(nr * ne + nw + i, "wr", "nw", WrEnv, NwSeqs[i])]
+    LET nr == Len(RdSeqs)  ne == Len(EnvSeq)  nw == Len(WrSeqs)  nn == Len(NwSeqs)  b == nr * ne IN
+    [i \in 1 .. b |-> Case(i, "rd", "conn", EnvSeq[((i - 1) % ne) + 1], 0, RdSeqs[((i - 1) \div ne) + 1])]
+    \o [i \in 1 .. 2 * nw |-> Case(b + i, "wr", "conn", WrEnv, (i - 1) % 2, WrSeqs[((i - 1) \div 2) + 1])]
+    \o [i \in 1 .. 2 * nn |-> Case(b + 2 * nw + i, "wr", "nw", WrEnv, (i - 1) % 2, NwSeqs[((i - 1) \div 2) + 1])]
 
 ASSUME Mode = "exhaustive" => ndJsonSerialize(IOEnv.VERIF_OUT, ExCases)
 
@@ -89,16 +91,17 @@ VARIABLES env,      \* environment of the case
           pos,      \* bytes consumed if every operation so far succeeded
           known,    \* bytes known to be buffered (highest offset peeked or read)
           pend,     \* written and not flushed
+          arena,    \* caller buffers of the case: 0 tight, 1 sub-slices of one array
           w,        \* weight only: TLC's simulator picks uniformly among distinct successor states
           done      \* the behaviour is complete
 
-gvars == <<env, ops, pos, known, pend, w, done>>
+gvars == <<env, ops, pos, known, pend, arena, w, done>>
 
 SimEofAts == {0, 1, 4095, 4096, 4097, 8192, 20481, 100000, 600000, Inf}
 
 GenInit == /\ env \in {Env(s, f, e, m, c, t) : s \in {0, 1, 16384}, f \in Frags \cup {<<7, 20480, 1>>}, e \in SimEofAts,
                                                m \in {"sep", "with"}, c \in {"eof", "reset"}, t \in {-1, 0, 4096, 5000}}
-           /\ ops = << >> /\ pos = 0 /\ known = 0 /\ pend = 0 /\ w = 0 /\ done = FALSE
+           /\ ops = << >> /\ pos = 0 /\ known = 0 /\ pend = 0 /\ w = 0 /\ done = FALSE /\ arena \in {0, 1}
 
 Small == {n \in SimSizes : n <= 8193}
 WrSizes == SimSizes \cap {0, 1, 4095, 4096, 4097, 8193, Big}
@@ -128,16 +131,16 @@ GenNext == /\ Len(ops) < SimLen
            /\ pend < 3000000     \* keep unflushed data (user buffers held by the driver) bounded
            /\ \/ GPeek \/ GSkipOk \/ GSkipAll \/ GSkipAny \/ GReadByte \/ GReadBinary \/ GRead \/ GRelease \/ GLen
               \/ GMalloc \/ GWriteBinary \/ GFlush \/ GWrite
-           /\ UNCHANGED <<env, done>>
-GenNextFlush == /\ Len(ops) < SimLen /\ pend >= 3000000 /\ GFlush /\ UNCHANGED <<env, done>>
-GenDone == Len(ops) = SimLen /\ ~done /\ done' = TRUE /\ UNCHANGED <<env, ops, pos, known, pend, w>>
+           /\ UNCHANGED <<env, done, arena>>
+GenNextFlush == /\ Len(ops) < SimLen /\ pend >= 3000000 /\ GFlush /\ UNCHANGED <<env, done, arena>>
+GenDone == Len(ops) = SimLen /\ ~done /\ done' = TRUE /\ UNCHANGED <<env, ops, pos, known, pend, w, arena>>
 
 GenSpecNext == GenNext \/ GenNextFlush \/ GenDone
 
 \* the exhaustive part needs no behaviours
-ExInit == env = WrEnv /\ ops = << >> /\ pos = 0 /\ known = 0 /\ pend = 0 /\ w = 0 /\ done = FALSE
+ExInit == env = WrEnv /\ ops = << >> /\ pos = 0 /\ known = 0 /\ pend = 0 /\ w = 0 /\ done = FALSE /\ arena = 0
 ExNext == UNCHANGED gvars
 
 \* a complete behaviour is one case
-Emit == done => PrintT("@@CASE " \o ToJson(Case(0, "sim", "conn", env, ops)))
+Emit == done => PrintT("@@CASE " \o ToJson(Case(0, "sim", "conn", env, arena, ops)))
 =============================================================================
